@@ -242,6 +242,7 @@ structure ReloadSt where
   text : String := ""                 -- configuration in force
   rules : String := "other"           -- placement rules of the default partition: provided-create | provided | other
   groupLimits : List String := []     -- group@path of every group limit handed to the user manager last
+  inForce : List String := []         -- paths of the queues the configuration in force names in the default partition
   prules : Option (List Place.Rule) := none  -- placement rules in force in the default partition (read back from the rule DAOs)
 
 def rlUsageOf (pre : String) (l : List (String × List UsageEntry)) : List (String × List (String × Res × List String)) :=
@@ -338,7 +339,8 @@ def reloadStep (st : ReloadSt) (j : Json) : Except String (ReloadSt × String) :
       let gl : List String := match ((jArr cfgJ0).toOption.getD #[]).toList.getLast? with
         | some p => (jStrList (fldD p "limitGroupPaths" (.arr #[]))).toOption.getD []
         | none => []
-      let st' : ReloadSt := { prev := some d, cl := cl, text := text, rules := rules, groupLimits := gl, prules := rlRulesInForce d }
+      let namedBy (conf : List PC) : List String := match conf.find? (fun pc => pc.name == "[rm-verif]default") with | some pc => pc.queues.map (·.path) | none => []
+      let st' : ReloadSt := { prev := some d, cl := cl, text := text, rules := rules, groupLimits := gl, prules := rlRulesInForce d, inForce := namedBy conf }
       if !(conf.all (fun pc => confWF pc.queues)) then return (st', "bad-op configuration list not well-formed")
       -- the initial load is a fresh load of every partition
       match updateSchedulerConfig [] conf with
@@ -428,7 +430,10 @@ def reloadStep (st : ReloadSt) (j : Json) : Except String (ReloadSt × String) :
         (eff, acc.2 ++ acc.1.filter (fun gp => !eff.contains gp))) (st.groupLimits, [])).2
     let st' : ReloadSt := { base with cl := withLimits cl s1.cluster, text := if out then text else st.text,
                                       rules := if (out && !(viaEvent && text == st.text)) || updatedBeforeRefusal then rules else st.rules,
-                                      groupLimits := effectiveLimits }
+                                      groupLimits := effectiveLimits,
+                                      inForce := if (out && !(viaEvent && text == st.text)) || updatedBeforeRefusal then
+                                                   (match conf.find? (fun pc => pc.name == "[rm-verif]default") with | some pc => pc.queues.map (·.path) | none => st.inForce)
+                                                 else st.inForce }
     -- model vs implementation: the answer, then the state
     let diffAns : Option String :=
       if merr.isNone != out then some s!"diff reload.accepted model={merr.isNone}{match merr with | some e => "(" ++ toString (repr e) ++ ")" | none => ""} impl={out} {(jStr (fldD j "error" (.str ""))).toOption.getD ""}"
@@ -574,7 +579,14 @@ def reloadStep (st : ReloadSt) (j : Json) : Except String (ReloadSt × String) :
           if !acc then [] else match p0.tree.find iq with
             | some q => if q.state == .draining then [s!"C16.D2 application {ctx} was accepted into the draining queue {iq}"] else []
             | none => []
-        (diff ++ drain, true)
+        -- … nor into a configured-type queue the configuration in force no longer names (it should be draining: e.g. the
+        -- child of a parent that an update turned into a leaf)
+        let gone : List String :=
+          if !acc then [] else match p0.tree.find iq with
+            | some q => if q.managed && q.state != .draining && !st.inForce.isEmpty && !st.inForce.contains iq then
+                          [s!"C16.D3 application {ctx} was accepted into the managed queue {iq} ({showState q.state}) that the configuration in force does not name: it should be draining"] else []
+            | none => []
+        (diff ++ drain ++ gone, true)
       | _, _, _ => ([], false)
     let sub : List String × Bool :=
       -- the single provided rule against `admits` (no root.default: that rule list has no fall-back then)
